@@ -385,6 +385,10 @@ class Filters:
             return self.safe_name(f"{prefix}_{name}", prefix, name_case, **kwargs)
 
         result = name_case(name, **kwargs)
+        if result.startswith("__"):
+            # Dunder names e.g. __init__ and names python mangles in a class body
+            return self.safe_name(f"{prefix}_{name}", prefix, name_case, **kwargs)
+
         if text.is_reserved(result):
             return self.safe_name(f"{name}_{prefix}", prefix, name_case, **kwargs)
 
